@@ -69,8 +69,9 @@ Do not commit. Leave your change as uncommitted edits of tracked files in the wo
 3. `README.md` - first line a one-line title of the change; then what was changed and why it looks plausible; then a section
    `## What it needs to manifest`; then, if you noticed any, a section `## Side observations` listing genuine defects of the UNCHANGED
    code that you ran into (with the input that shows them).
-Confirm all of it yourself: tests pass with the change; demo exits 1 with it; `git stash` / `git checkout` the change, demo exits 0; restore
-the change at the end so that the worktree holds it.
+Confirm all of it yourself: tests pass with the change; demo exits 1 with it; take the change out with
+`git -C %(wt)s apply -R SEEDED/%(letter)s/patch.diff` (NEVER use `git stash`: the stash is shared by all worktrees of the repository and other agents are working in
+sibling worktrees), demo exits 0; put it back with `git apply SEEDED/%(letter)s/patch.diff` so that the worktree holds it at the end.
 
 ## Facts about this sandbox (no network at all)
 
